@@ -32,6 +32,22 @@ var plans = map[string]*plan{
 		Real:   realA, Stub: stubA,
 		Assume: []string{"schemas are read from /repo/docs/api/schemas at run time with the repo's own gojsonschema", "lock API requests are judged by the C16 checks, not here"},
 	},
+	"C08": {
+		ID: "C08", Engine: "A", Level: "exploration",
+		Stages: []stage{{"C08", 20000, 600000}, {"C08.smudge", 5000, 150000}},
+		Rule:   "stream harness: input drawn from 9 pointer / look-alike classes (canonical, decoder-accepted variants, pointer+extra, padded to 1023/1024/1025, pointer prefix followed by KB..200KB, near-pointers, empty, two pointers) x a scripted reader delivering it in tape-chosen chunks (single, boundary at/around the end of the pointer-looking prefix and the 1024 sniff, fixed sizes 1..65517, random) x EOF delivered with or after the last bytes x working-tree file absent/same/shorter/longer/pointer. Every case is non-trivial; distinct = distinct choice trace.",
+		Real:   []string{"commands.clean / commands.smudge (via tagged export)", "lfs.GitFilter.Clean/Smudge, lfs.DecodeFrom, pointer codec", "tools.CopyWithCallback / Spool", "real object store on disk"},
+		Stub:   []string{"the byte source and sink (scripted chunked reader, in-memory writer)"},
+		Assume: []string{"'well-formed pointer' = accepted by lfs.DecodePointer as a whole and shorter than 1024 bytes", "zero-length reads without EOF are not generated"},
+	},
+	"C01": {
+		ID: "C01", Engine: "A", Level: "exploration",
+		Stages: []stage{{"C01", 16000, 400000}},
+		Rule:   "stream harness: content of sizes 0,1,2,100,1023..1025,4096,65515..65517,131031..131033,300000,2.5MB (rare) x binary/text/CRLF/pointer-look-alike x scripted chunkings (as C08) for clean, then the produced pointer smudged back through a second scripted chunking; working-tree file absent/same/shorter/longer/pointer. Every case is non-trivial; distinct = distinct choice trace.",
+		Real:   []string{"commands.clean / commands.smudge (via tagged export)", "lfs.GitFilter.Clean/Smudge, lfs.DecodeFrom, pointer codec", "tools.CopyWithCallback / Spool", "real object store on disk"},
+		Stub:   []string{"the byte source and sink (scripted chunked reader, in-memory writer)"},
+		Assume: []string{"pointer extensions and the merge driver are not covered by this check (stated, not silently skipped)"},
+	},
 }
 
 func runEngineB(p *plan, tier string, base uint64, workers int, scale float64, replay string) int {
